@@ -29,6 +29,9 @@ type Circuit struct {
 
 	// Tracks if the circuit has been shut open or closed
 	isOpen faststats.AtomicBoolean
+	// transitionMu serializes the open <-> closed transitions, so each one is tested, notified and stored as a unit:
+	// Opened/Closed are delivered exactly once per transition and in the order the transitions happen
+	transitionMu sync.Mutex
 
 	// Tracks how many commands are currently running
 	concurrentCommands faststats.AtomicInt64
@@ -189,6 +192,8 @@ func (c *Circuit) OpenCircuit(ctx context.Context) {
 // OpenCircuit opens a circuit, without checking error thresholds or request volume thresholds.  The circuit will, after
 // some delay, try to close again.
 func (c *Circuit) openCircuit(ctx context.Context, now time.Time) {
+	c.transitionMu.Lock()
+	defer c.transitionMu.Unlock()
 	if c.threadSafeConfig.CircuitBreaker.ForcedClosed.Get() {
 		// Don't open circuits that are forced closed
 		return
@@ -440,6 +445,8 @@ func (c *Circuit) allowNewRun(ctx context.Context, now time.Time) bool {
 
 // close closes an open circuit.  Usually because we think it's healthy again.
 func (c *Circuit) close(ctx context.Context, now time.Time, forceClosed bool) {
+	c.transitionMu.Lock()
+	defer c.transitionMu.Unlock()
 	if !c.IsOpen() {
 		// Not open.  Don't need to close it
 		return
